@@ -14,6 +14,10 @@ module adds a second, syntactic tie: on every `./check <Prop>` (with Lean) `rege
 5. builds `VOPyVerif.Proofs.GenAgree<Prop>` — the theorems `gen_<name> = <hand-written term>` — and reports the
    theorems that no longer check by name (`error` key => the check reports a broken proof obligation).
 
+The same entry point serves the PHASE translator (`harness/translate_phases.py`, DESIGN §2.10.2) for the properties
+in `PHASE_PROPS` (C02, C03, C05): one shared generated file `Gen/Phases.lean`, agreement module
+`Proofs/GenAgreePhases.lean`; writing-on-change, naming of failing theorems and restore-at-exit are shared.
+
 Anything the translator does not understand raises `Untranslatable` naming the construct: a source change the
 translator cannot read IS a broken tie, by design (the formula is then left out of the generated file, so its
 agreement theorem stops elaborating and is reported by name together with the construct).
@@ -788,28 +792,45 @@ def _agreement_build(prop: str) -> tuple[bool, list[str], str]:
     return False, failed, log[-1500:]
 
 
-def _restore_canonical(prop: str, scratch_text: str) -> None:
+def _render_any(name: str, repo: Path):
+    """-> (text, {definition: sha1}, [errors]) of `Gen/<name>.lean`"""
+    if name == "Phases":
+        from . import translate_phases
+        return translate_phases.render(repo)
+    return render(name, repo)
+
+
+def _restore_canonical(name: str, scratch_text: str) -> None:
     """at exit of a run on a scratch tree: put back the file generated from the canonical repo (a copy of what
     the scratch tree produced is kept under out/gen/ for inspection); the next run on the canonical repo then
     finds the file unchanged w.r.t. its source and only re-elaborates the modules built against the scratch term"""
     try:
         keep = VERIF / "out" / "gen"
         keep.mkdir(parents=True, exist_ok=True)
-        (keep / f"{prop}.scratch.lean").write_text(scratch_text)
-        text, _, _ = render(prop, Path(CANONICAL_REPO))
-        out = GEN_DIR / f"{prop}.lean"
+        (keep / f"{name}.scratch.lean").write_text(scratch_text)
+        text, _, _ = _render_any(name, Path(CANONICAL_REPO))
+        out = GEN_DIR / f"{name}.lean"
         if out.read_text() != text:
             out.write_text(text)
     except Exception:
         pass
 
 
+# properties whose model is (also) tied to the source by the phase translator (harness/translate_phases.py):
+# one shared generated file `Gen/Phases.lean`, agreement module `Proofs/GenAgreePhases.lean`
+PHASE_PROPS = {"C02", "C03", "C05"}
+
+
 def regenerate(prop: str, repo: str) -> dict | None:
     prop = prop.upper()
-    if prop not in SPECS:
+    if prop in SPECS:
+        name = prop
+    elif prop in PHASE_PROPS:
+        name = "Phases"
+    else:
         return None
-    text, formulas, errors = render(prop, Path(repo))
-    out = GEN_DIR / f"{prop}.lean"
+    text, formulas, errors = _render_any(name, Path(repo))
+    out = GEN_DIR / f"{name}.lean"
     res = {"files": [str(out.relative_to(VERIF))], "formulas": formulas, "changed": False, "source": str(repo)}
     # The file always corresponds to the CURRENT source: a formula the translator cannot read is left out, so
     # its agreement theorem stops elaborating (and is named below) instead of silently checking a stale term.
@@ -819,13 +840,13 @@ def regenerate(prop: str, repo: str) -> dict | None:
         res["changed"] = True
     if Path(repo).resolve() != Path(CANONICAL_REPO).resolve():
         # a scratch tree (VOPY_REPO=<worktree>): the generated file must not outlive this run
-        atexit.register(_restore_canonical, prop, text)
-    ok, failed, log = _agreement_build(prop)
-    res["agreement"] = {"module": f"VOPyVerif.Proofs.GenAgree{prop}", "ok": ok, "failed": failed}
+        atexit.register(_restore_canonical, name, text)
+    ok, failed, log = _agreement_build(name)
+    res["agreement"] = {"module": f"VOPyVerif.Proofs.GenAgree{name}", "ok": ok, "failed": failed}
     if not ok:
         res["agreement"]["log"] = log
-    names = (", ".join(f"VOPy.GenAgree.{prop}.{n}" for n in failed) if failed else
-             f"(none located: module VOPyVerif.Proofs.GenAgree{prop} or the generated VOPyVerif.Gen.{prop} does not "
+    names = (", ".join(f"VOPy.GenAgree.{name}.{n}" for n in failed) if failed else
+             f"(none located: module VOPyVerif.Proofs.GenAgree{name} or the generated VOPyVerif.Gen.{name} does not "
              "build, see translator.agreement.log)")
     if errors:
         res["translator_errors"] = errors
